@@ -841,7 +841,7 @@ def _r19_4(c, R, spec):
     radt = c.adts.get(RESOLVER)
     if tr and R.anchor("R19.4", "struct Resolver", radt and radt.get("variants")):
         def resolver(i):
-            return St(RESOLVER, {f["name"]: V("Borrowed", S("r%d" % i)) for f in radt["variants"][0]["fields"]})
+            return St(RESOLVER, {f["name"]: S("r%d" % i) for f in radt["variants"][0]["fields"]})
         plans = [
             ("second resolver has it", ["none", "hit", "hit"], ("Ok", 1), 2),
             ("first resolver has it", ["hit", "hit", "hit"], ("Ok", 0), 1),
